@@ -799,27 +799,80 @@ func condAtom(fn *ssa.Function, v ssa.Value) (string, bool) {
 // MustPassThroughPS is MustPassThrough with consistency of repeated boolean conditions: a path that takes contradictory
 // branches on the same atom is not considered. Returns an offending success return, or nil.
 func MustPassThroughPS(fn *ssa.Function, from ssa.Instruction, P func(ssa.Instruction) bool) *ssa.Return {
-	type state struct {
-		b   *ssa.BasicBlock
-		idx int
-		env string
-	}
 	var found *ssa.Return
 	seen := map[string]bool{}
-	var walk func(b *ssa.BasicBlock, idx int, env map[string]bool, depth int)
-	envKey := func(env map[string]bool) string {
-		keys := make([]string, 0, len(env))
+	type pvals map[*ssa.Phi]ssa.Value
+	envKey := func(env map[string]bool, pv pvals) string {
+		keys := make([]string, 0, len(env)+len(pv))
 		for k, v := range env {
 			keys = append(keys, fmt.Sprintf("%s=%v", k, v))
+		}
+		for p, v := range pv {
+			keys = append(keys, fmt.Sprintf("%s:=%s", p.Name(), v.Name()))
 		}
 		sort.Strings(keys)
 		return strings.Join(keys, ",")
 	}
-	walk = func(b *ssa.BasicBlock, idx int, env map[string]bool, depth int) {
+	// resolve a branch condition along the current path: boolean phis take the value of the edge the path came through
+	// (`x := a && b; if !x` — the phi of the && lowering is either the constant false or b)
+	var resolve func(v ssa.Value, pv pvals, depth int) (ssa.Value, bool)
+	resolve = func(v ssa.Value, pv pvals, depth int) (ssa.Value, bool) {
+		pol := true
+		for depth < 8 {
+			depth++
+			if u, ok := v.(*ssa.UnOp); ok && u.Op == token.NOT {
+				v, pol = u.X, !pol
+				continue
+			}
+			if ph, ok := v.(*ssa.Phi); ok {
+				if val, ok := pv[ph]; ok {
+					v = val
+					continue
+				}
+			}
+			break
+		}
+		return v, pol
+	}
+	var walk func(b *ssa.BasicBlock, idx int, env map[string]bool, pv pvals, depth int)
+	enter := func(from, to *ssa.BasicBlock, pv pvals) pvals {
+		// record the values of to's boolean phis for the edge from -> to
+		var out pvals
+		pi := -1
+		for k, p := range to.Preds {
+			if p == from {
+				pi = k
+			}
+		}
+		if pi < 0 {
+			return pv
+		}
+		for _, in := range to.Instrs {
+			ph, ok := in.(*ssa.Phi)
+			if !ok {
+				break
+			}
+			if bt, ok := ph.Type().Underlying().(*types.Basic); !ok || bt.Kind() != types.Bool {
+				continue
+			}
+			if out == nil {
+				out = pvals{}
+				for k, v := range pv {
+					out[k] = v
+				}
+			}
+			out[ph] = ph.Edges[pi]
+		}
+		if out == nil {
+			return pv
+		}
+		return out
+	}
+	walk = func(b *ssa.BasicBlock, idx int, env map[string]bool, pv pvals, depth int) {
 		if found != nil || depth > 400 {
 			return
 		}
-		k := fmt.Sprintf("%d|%d|%s", b.Index, idx, envKey(env))
+		k := fmt.Sprintf("%d|%d|%s", b.Index, idx, envKey(env, pv))
 		if seen[k] {
 			return
 		}
@@ -834,21 +887,32 @@ func MustPassThroughPS(fn *ssa.Function, from ssa.Instruction, P func(ssa.Instru
 				if !IsFailureReturn(t) {
 					found = t
 					if os.Getenv("FXDEBUG_PS") != "" {
-						fmt.Println("PS-DEBUG offending path env:", envKey(env), "block", b.Index)
+						fmt.Println("PS-DEBUG offending path env:", envKey(env, pv), "block", b.Index)
 					}
 				}
 				return
 			case *ssa.Panic:
 				return
 			case *ssa.If:
-				atom, pol := condAtom(fn, t.Cond)
+				cv, cpol := resolve(t.Cond, pv, 0)
+				if c, isC := cv.(*ssa.Const); isC && c.Value != nil && c.Value.Kind() == constant.Bool {
+					taken := constant.BoolVal(c.Value) == cpol
+					nb := b.Succs[1]
+					if taken {
+						nb = b.Succs[0]
+					}
+					walk(nb, 0, env, enter(b, nb, pv), depth+1)
+					return
+				}
+				atom, pol := condAtom(fn, cv)
+				pol = pol == cpol
 				if val, ok := env[atom]; ok {
 					taken := val == pol
 					nb := b.Succs[1]
 					if taken {
 						nb = b.Succs[0]
 					}
-					walk(nb, 0, env, depth+1)
+					walk(nb, 0, env, enter(b, nb, pv), depth+1)
 					return
 				}
 				for _, br := range []bool{true, false} {
@@ -861,21 +925,21 @@ func MustPassThroughPS(fn *ssa.Function, from ssa.Instruction, P func(ssa.Instru
 					if br {
 						nb = b.Succs[0]
 					}
-					walk(nb, 0, e2, depth+1)
+					walk(nb, 0, e2, enter(b, nb, pv), depth+1)
 				}
 				return
 			}
 		}
 		for _, s := range b.Succs {
-			walk(s, 0, env, depth+1)
+			walk(s, 0, env, enter(b, s, pv), depth+1)
 		}
 	}
 	if from == nil {
 		if len(fn.Blocks) > 0 {
-			walk(fn.Blocks[0], 0, map[string]bool{}, 0)
+			walk(fn.Blocks[0], 0, map[string]bool{}, pvals{}, 0)
 		}
 	} else {
-		walk(from.Block(), instrIndex(from)+1, map[string]bool{}, 0)
+		walk(from.Block(), instrIndex(from)+1, map[string]bool{}, pvals{}, 0)
 	}
 	return found
 }
